@@ -86,6 +86,11 @@ def make_model(kind):
     m = Model()
     m.add_variables({"x": 1.0, "y": 0.5})
     m.add_parameters({"c": 1.0, "k1": 1.5, "k2": 0.75})
+    if kind == "cons":
+        # closed pair x <-> y: the total is conserved, so every result depends on the row's start values
+        m.add_reaction("v1", f_ma, args=["x", "k1"], stoichiometry={"x": -1, "y": 1})
+        m.add_reaction("v2", f_ma, args=["y", "k2"], stoichiometry={"y": -1, "x": 1})
+        return m
     if kind == "ia":
         m.add_parameter("q", InitialAssignment(fn=f_twice, args=["x"]))
         m.add_reaction("v0", f_const_q, args=["c", "q"], stoichiometry={"x": 1})
@@ -434,7 +439,7 @@ def check(case):
 def generate(tier):
     cases = []
     seq_kinds = ["steady_state", "time_course", "protocol", "protocol_time_course"]
-    for model, tbl, kind in it.product(("ma", "derived", "ia"), ("par", "init", "both", "both-rev"), seq_kinds):
+    for model, tbl, kind in it.product(("ma", "derived", "ia", "cons"), ("par", "init", "both", "both-rev"), seq_kinds):
         for rows in (1, 2, 3):
             for read in it.permutations(range(rows)):
                 for vf in ("variables", "fluxes"):
@@ -443,9 +448,9 @@ def generate(tier):
         cases.append({"family": "seq", "model": model, "table": tbl, "kind": kind, "rows": 3, "read": [2, 0, 1], "view_first": "fluxes", "labels": ["c", "a", "b"]})
     # the y0= argument: applied to the model first, the row's own values on top
     mc_kinds = ["mc.steady_state", "mc.time_course", "mc.protocol", "mc.protocol_time_course"]
-    for kind, tbl, y0 in it.product(seq_kinds + mc_kinds, ("par", "init", "both"), ("y", "xy")):
+    for kind, tbl, y0, model in it.product(seq_kinds + mc_kinds, ("par", "init", "both"), ("y", "xy"), ("ia", "cons")):
         for read in ([0, 1], [1, 0]):
-            cases.append({"family": "seq", "model": "ia", "table": tbl, "kind": kind, "rows": 2, "read": read, "view_first": "variables", "y0": y0})
+            cases.append({"family": "seq", "model": model, "table": tbl, "kind": kind, "rows": 2, "read": read, "view_first": "variables", "y0": y0})
     for kind, mech in it.product(seq_kinds + mc_kinds, ("nanrate", "nosteady", "zerodiv")):
         if mech == "nosteady" and not kind.endswith("steady_state"):
             continue
